@@ -247,7 +247,7 @@ func genWidth(r *fw.RNG, o GenOpts, depth int) int {
 func Gen(r *fw.RNG, o GenOpts) Val { return gen(r, o, 0) }
 
 func gen(r *fw.RNG, o GenOpts, depth int) Val {
-	if o.ScalarsOnly || depth >= o.MaxDepth || r.Chance(2, 5) && depth > 0 {
+	if o.ScalarsOnly || depth >= o.MaxDepth || r.Chance(2, 5) && depth > 0 || depth == 0 && r.Chance(1, 6) {
 		return GenScalar(r, o)
 	}
 	if r.Bool() {
